@@ -2,7 +2,12 @@ package c06
 
 import (
 	"fmt"
+	"github.com/go-kid/ioc"
+	"github.com/go-kid/ioc/app"
+	"github.com/go-kid/ioc/container/support"
+	"os"
 	"reflect"
+	"sort"
 	"strings"
 	"testing"
 
@@ -311,4 +316,56 @@ func TestLazyAfterOtherContainer(t *testing.T) {
 		desc, labels, nt := graph.LazyAfterOther(t, "C06", false)
 		kit.Rec.Case(desc, nt, labels...)
 	})
+}
+
+// ---- providers announced process-wide (ioc.Register), consumers passed to ioc.Run - own process -----------------
+
+type GIf interface{ gname() string }
+type GProvA struct{}
+type GProvB struct{ N int }
+type GProvC struct{ N int }
+
+func (*GProvA) gname() string { return "a" }
+func (*GProvB) gname() string { return "b" }
+func (*GProvC) gname() string { return "c" }
+func (*GProvC) Comp() string  { return "x" }
+
+type GCons struct {
+	All   []GIf   `wire:""`
+	B     *GProvB `wire:",required=false"`
+	Comps []GIf   `func:"Comp,returns=x"`
+}
+
+func TestStaticRegisteredProviders(t *testing.T) {
+	if os.Getenv("VERIF_GLOBAL_SETTINGS") != "1" {
+		t.Skip("changes process-wide state: runs in a process of its own")
+	}
+	kit.Rec.Rule(rule)
+	pa, pb := &GProvA{}, &GProvB{N: 1}
+	ioc.Register(pa, pb)
+	for round, ownRegistry := range []bool{false, true, true, false} {
+		pc, cons := &GProvC{N: 2}, &GCons{}
+		ops := []app.SettingOption{app.SetComponents(pc, cons)}
+		if ownRegistry {
+			ops = append([]app.SettingOption{app.SetRegistry(support.NewRegistry())}, ops...)
+		}
+		var err error
+		if p := kit.Protect(func() { _, err = ioc.Run(ops...) }); p != nil {
+			t.Fatalf("C06: ioc.Run panicked: %v", p)
+		}
+		desc := fmt.Sprintf("providers a, b announced through ioc.Register, provider c and the consumer passed to ioc.Run (run %d, registry of its own: %v)", round, ownRegistry)
+		if err != nil {
+			t.Fatalf("C06: %s: start-up failed: %v", desc, err)
+		}
+		var names []string
+		for _, x := range cons.All {
+			names = append(names, x.gname())
+		}
+		sort.Strings(names)
+		if strings.Join(names, ",") != "a,b,c" || cons.B != pb || len(cons.Comps) != 1 || cons.Comps[0] != GIf(pc) {
+			kit.DumpReplay("c06-registered-providers", map[string]any{"scenario": desc, "all": names, "b": fmt.Sprintf("%p", cons.B), "comps": len(cons.Comps)})
+			t.Fatalf("C06: %s: []GIf holds %v (want a, b, c), *GProvB point holds %p (want %p), func point holds %d (want 1)", desc, names, cons.B, pb, len(cons.Comps))
+		}
+		kit.Rec.Case(desc, ownRegistry, "registered-providers")
+	}
 }
